@@ -204,6 +204,8 @@ class Sub:
     shards: Dict[str, int] = field(default_factory=lambda: {"quick": 2, "thorough": 16})
     exhaustive: bool = False
     doc: str = ""
+    fuzz: Optional[Dict[str, float]] = None  # tier -> seconds of atheris campaign per fuzz process (None = no campaign)
+    fuzz_procs: int = 4
 
 
 def run_case(sub: Sub, case, tier: str) -> Ctx:
@@ -394,6 +396,73 @@ def _job_safe(args):
 
 
 # --------------------------------------------------------------------------- #
+# coverage-guided campaigns (atheris/libFuzzer through Hypothesis' fuzz_one_input)
+# --------------------------------------------------------------------------- #
+def run_fuzz(mod, subs, tier: str, seed: int, total: "Stats", scale: float = 1.0) -> dict:
+    """Runs vlib.fuzz for every sub that asks for it in this tier; merges what they recorded into `total`.
+    Returns the 'fuzz' evidence block.  A missing atheris is reported, never an error or a violation."""
+    import shutil
+    import subprocess
+    import tempfile
+
+    report = {}
+    todo = [(s, s.fuzz[tier]) for s in subs if s.fuzz and s.fuzz.get(tier) and s.strategy is not None]
+    if not todo:
+        return report
+    try:
+        import atheris  # noqa: F401
+    except Exception as e:  # noqa: BLE001
+        return {"skipped": f"atheris not importable ({type(e).__name__}); run ./setup.sh"}
+    work = tempfile.mkdtemp(prefix="vfuzz_")
+    try:
+        procs = []
+        for sub, budget in todo:
+            budget = max(5.0, budget * scale)
+            for i in range(sub.fuzz_procs):
+                mode = "empty" if i % 2 == 0 else "seeded"
+                out = os.path.join(work, f"{sub.name}.{i}.json")
+                corpus = os.path.join(work, f"corpus.{sub.name}.{i}")
+                os.makedirs(corpus)
+                s = derive_seed(seed, mod.PROPERTY_ID, sub.name, "fuzz", i)
+                cmd = [sys.executable, "-m", "vlib.fuzz", mod.PROPERTY_ID, sub.name, tier, str(s), str(budget), out, corpus, mode]
+                log = open(os.path.join(work, f"{sub.name}.{i}.log"), "w")
+                procs.append((sub, i, mode, out, budget, subprocess.Popen(cmd, stdout=log, stderr=subprocess.STDOUT, cwd=VERIF_DIR), log))
+        for sub, i, mode, out, budget, p, log in procs:
+            try:
+                p.wait(timeout=budget + 120)
+            except subprocess.TimeoutExpired:
+                p.kill()
+            log.close()
+            rep = report.setdefault(sub.name, dict(engine="atheris 3.1 / libFuzzer via hypothesis fuzz_one_input", budget_s_per_process=budget, processes=0, executions=0, cases=0, new_distinct_cases=0, corpus_modes=[]))
+            if not os.path.exists(out):
+                rep.setdefault("errors", []).append(f"process {i}: no output (rc={p.returncode})")
+                continue
+            with open(out) as fh:
+                d = json.load(fh)
+            if d.get("harness"):
+                raise HarnessError(f"fuzz {sub.name}: {d['harness']}")
+            st_ = Stats()
+            st_.evaluations = d["evaluations"]
+            st_.hashes = set(d["hashes"])
+            st_.hashes_nt = set(d["hashes_nt"])
+            st_.labels = d["labels"]
+            st_.excluded = d["excluded"]
+            st_.known_hits = d["known_hits"]
+            st_.buckets = d["buckets"]
+            st_.samples = [tuple(x) for x in d["samples"]]
+            new = len(st_.hashes - total.hashes)
+            total.absorb(st_)
+            rep["processes"] += 1
+            rep["executions"] += d["execs"]
+            rep["cases"] += d["evaluations"]
+            rep["new_distinct_cases"] += new
+            rep["corpus_modes"].append(mode)
+    finally:
+        shutil.rmtree(work, ignore_errors=True)
+    return report
+
+
+# --------------------------------------------------------------------------- #
 # Phase B : shrink one bucket
 # --------------------------------------------------------------------------- #
 def shrink_bucket(mod, sub: Sub, bucket: str, rec: dict, tier: str, n_examples: int, budget_s: float = 120.0):
@@ -532,6 +601,9 @@ def run_property(mod, tier: str, seed: int, only_sub: Optional[str] = None, scal
         ps["wall_s"] = max(ps["wall_s"], res.wall)
         total.absorb(res)
 
+    # coverage-guided campaigns (thorough tier of the reader properties)
+    fuzz_report = run_fuzz(mod, subs, tier, seed, total, scale)
+
     # Phase B
     violations = []
     for bucket, rec in sorted(total.buckets.items()):
@@ -553,6 +625,8 @@ def run_property(mod, tier: str, seed: int, only_sub: Optional[str] = None, scal
 
     wall = time.time() - t0
     evidence = build_evidence(mod, tier, seed, total, per_sub, violations, wall, n_regress, subs)
+    if fuzz_report:
+        evidence["coverage"]["fuzz"] = fuzz_report
     ev_path = os.path.join(OUT_DIR, "evidence", f"{prop_id}.json")
     os.makedirs(os.path.dirname(ev_path), exist_ok=True)
     with open(ev_path, "w") as fh:
